@@ -78,6 +78,44 @@ CHECKS = {
                   "vs by-value twin (differential), on the implementation",
         engine="hist",
     ),
+    "C09": dict(
+        category="model_checking",
+        text="Explicit-state BFS over curve-state operations (preprocess, "
+             "fit, refit, unsuccessful fit, settings edit, failed call) "
+             "interleaved with 9 rating operations to depth 3/4 on curves "
+             "with >= 600 and < 600 approach points and a recorded curve; "
+             "after every rating the value is compared with the documented "
+             "rules and with a separately constructed standalone rater. A "
+             "full sweep of all regressors x training sets x feature "
+             "subsets x LDA flags runs over 12 representative states, and "
+             "a rating table is recomputed in 3 interpreters with different "
+             "hash seeds.",
+        design_ref="DESIGN.md §2 C09",
+        note="[0,10] demanded only for the averaging tree regressors "
+             "without LDA; in-memory (X, y) training sets are exercised via "
+             "the standalone rater only.",
+        technique="explicit-state BFS over operation histories with a "
+                  "rule/standalone-rater oracle per rating; exhaustive menu "
+                  "sweep; process enumeration",
+        engine="hist",
+    ),
+    "C12": dict(
+        category="model_checking",
+        text="Exhaustive grid: all ordered value pairs per setting key on "
+             "4 base configurations, every parameter x attribute, 1-ulp and "
+             "1% perturbation at every sample index of both axes, all "
+             "representation variants (tuple/list, int/float/numpy/bool, "
+             "all dict permutations), don't-cares; plus BFS over the C03 "
+             "alphabet (depth 3/4) checking that hash <-> (data, effective "
+             "settings) is a bijection over all fitted states and that the "
+             "stored hash equals the recomputed one; hash table recomputed "
+             "under 3 PYTHONHASHSEED values.",
+        design_ref="DESIGN.md §2 C12",
+        note="Value domains are realistic physical values (DESIGN O5/O6).",
+        technique="exhaustive cartesian enumeration + explicit-state BFS "
+                  "with a bijection invariant; process enumeration",
+        engine="hist+grid",
+    ),
 }
 
 NA_REASON = "check not built yet in this session (under construction; see DESIGN.md §9 work order)"
@@ -114,7 +152,7 @@ def build():
         "engines": [
             {"name": "enum", "path": "mc/props/c14.py", "serves_properties": ["C14"],
              "kind_free_text": "complete enumeration of a finite input domain on the implementation"},
-            {"name": "hist", "path": "mc/hist.py", "serves_properties": ["C03", "C06", "C10"],
+            {"name": "hist", "path": "mc/hist.py", "serves_properties": ["C03", "C06", "C09", "C10", "C12"],
              "kind_free_text": "explicit-state breadth-first search over operation histories on real objects (replay from scratch, canonical state hash, per-state and per-transition oracles, merge-soundness and determinism self-checks)"},
             {"name": "store", "path": "mc/props/c03_store.py", "serves_properties": ["C03"],
              "kind_free_text": "closure (fixpoint) search of small dictionary-like stores against a reference model"},
